@@ -18,7 +18,8 @@ PARTIAL = ["everything lexical (pyparsing grammars, regular-expression block spl
 RULE = ("BNs with 1-6 variables whose names are identifiers, a share of them containing format keywords (variable, probability, network, "
         "table, default, node, potential, data, property), identifier state names, cards 1-5 (one huge table per run in thorough), 0-3 "
         "parents in random declared order, entries across magnitudes 1e-12..1 with exact 0/1; formats BIF, XMLBIF, UAI (BN and Markov), "
-        "NET; reader/writer classes and save/load; 6 hash seeds; non-trivial = some CPD has >= 2 parents or a tiny entry; distinct = case JSON")
+        "NET; reader/writer classes and save/load; 6 hash seeds; non-trivial = some CPD has >= 2 parents or a tiny entry; distinct = case JSON"
+        " Also: the written model must be unchanged; state names that are words of the formats.")
 ASSUMPTIONS = ["NET is compared at the documented 4 decimals (5e-5 absolute); the other formats at 1e-12 relative"]
 BUDGET_QUICK = 110
 LEVEL_TEXT = ("Kernel-checked table-layout contracts: column-major flattening of a CPD table (BIF rows per parent configuration, XMLBIF "
